@@ -284,8 +284,9 @@ class CSVWriter(rbql_engine.RBQLOutputWriter):
                 fields[i] = ''
                 self.none_in_output = True
             elif isinstance(fields[i], list):
-                self.normalize_fields(fields[i])
-                fields[i] = self.sub_array_delim.join(fields[i])
+                sub_fields = fields[i][:] # The list can be a cell of the caller's input table: normalize a copy
+                self.normalize_fields(sub_fields)
+                fields[i] = self.sub_array_delim.join(sub_fields)
             else:
                 fields[i] = str(fields[i])
 
